@@ -379,8 +379,23 @@ def run(check, repo: Repo) -> None:
         first = p.ops[0] if p.ops else None
         if name in STRETCHES:
             clip_first = first is not None and first[0] == "np.clip" and [unparse(x) for x in first[2].args[1:3]] == ["0.0", "1.0"] and not first[3]
-            check.decide(clip_first, "C20-R2", f"{name}.__call__ clips its input to [0, 1] first", "", mod.line(p.fn),
-                         fail_detail="the stretch does not start with np.clip(values, 0.0, 1.0, out=values): out-of-range input leaves [0, 1] (or hits log/power domain errors)")
+            if not clip_first:
+                # two defences exist: the interval ends with a clip to [0, 1] and the stretch starts with one.  Inside CustomNormalization the stretch only ever sees
+                # the interval's output, so its own clip is redundant exactly when __call__ hands it `self.interval(value)` unchanged and the interval still clips last
+                bp = pipes.get("BaseInterval")
+                blast = bp.ops[-1] if bp is not None and bp.ops else None
+                interval_clips = blast is not None and blast[0] == "np.clip" and [unparse(x) for x in blast[2].args[1:3]] == ["0.0", "1.0"]
+                feeds_interval = len(txt) >= 2 and txt[0] == "values = self.interval(value)" and txt[1] in ("self.stretch(values, copy=False)", "values = self.stretch(values, copy=False)")
+                if interval_clips and feeds_interval:
+                    check.holds("C20-R2", f"{name}.__call__ clips its input to [0, 1] first", "own clip dropped; the stretch is fed the interval's clipped output unchanged", mod.line(p.fn))
+                    continue_flag = True
+                else:
+                    check.violated("C20-R2", f"{name}.__call__ clips its input to [0, 1] first",
+                                   "neither defence is left: the stretch no longer clips its input and CustomNormalization.__call__ does not hand it the interval's clipped output "
+                                   "(the clip was moved behind the stretch or the interval no longer ends with it) — data outside the limits reaches the power/log with values outside "
+                                   "[0, 1]: the map folds back (not monotone) or produces NaN", mod.line(p.fn), definite=True)
+            else:
+                check.holds("C20-R2", f"{name}.__call__ clips its input to [0, 1] first", "", mod.line(p.fn))
         else:
             last = p.ops[-1] if p.ops else None
             clip_last = last is not None and last[0] == "np.clip" and [unparse(x) for x in last[2].args[1:3]] == ["0.0", "1.0"] and not last[3]
